@@ -3,6 +3,7 @@ package verifh
 import (
 	"fmt"
 	"math"
+	"sort"
 	"strings"
 
 	"pgregory.net/rapid"
@@ -20,14 +21,26 @@ func chance(rt *rapid.T, label string, num, den int) bool {
 func nid(i int) string { return fmt.Sprintf("n%d", i) }
 
 // nameScheme draws how node indices become ID strings: n<i> (default), bare decimals of mixed length ("7", "12": string
-// concatenations and lexicographic comparisons of such IDs collide / reorder - seeded/r2-m14, r2-m08), or letters.
+// concatenations and lexicographic comparisons of such IDs collide / reorder - seeded/r2-m14, r2-m08), letters, or names with a
+// long common prefix / a common suffix.
 // None of the schemes can produce a helper-like ID (V<k>, NE<i>).
 func nameScheme(rt *rapid.T) func(int) string {
-	switch pick(rt, "id_scheme", 5) {
+	switch pick(rt, "id_scheme", 7) {
 	case 0, 1, 2:
 		return nid
 	case 3:
 		return func(i int) string { return fmt.Sprint(i) }
+	case 5:
+		// a long common prefix (qualified names) - IDs that differ only in their last characters
+		return func(i int) string { return fmt.Sprintf("com.example.service.module.Component$Inner_%d", i) }
+	case 6:
+		// a common suffix, zero-padded and not: "7.node" / "007.node" style names differ in length, not in the tail
+		return func(i int) string {
+			if i%2 == 0 {
+				return fmt.Sprintf("%d.node", i)
+			}
+			return fmt.Sprintf("%03d.node", i)
+		}
 	default:
 		return func(i int) string {
 			s := ""
@@ -403,8 +416,28 @@ func genGraph(rt *rapid.T, sp GraphSpec) (n int, es []iedge, label string) {
 			es[i] = iedge{perm[es[i][0]], perm[es[i][1]]}
 		}
 	}
-	if len(es) > 1 && chance(rt, "shuffle", 3, 4) {
-		es = rapid.Permutation(es).Draw(rt, "edge_order")
+	// edge order: mostly a drawn permutation; sometimes as generated (family order: parents before children, layer by
+	// layer), and sometimes the orders real data comes in and a random permutation of more than five edges never
+	// produces - sorted by (source, target), sorted by (target, source), or one of those reversed
+	if len(es) > 1 {
+		switch k := pick(rt, "edge_order_kind", 12); {
+		case k < 8:
+			es = rapid.Permutation(es).Draw(rt, "edge_order")
+		case k < 10:
+			// as generated
+		default:
+			byTarget, desc := k == 11, rapid.Bool().Draw(rt, "edge_order_desc")
+			sort.SliceStable(es, func(i, j int) bool {
+				a, b := es[i], es[j]
+				if byTarget {
+					a, b = iedge{a[1], a[0]}, iedge{b[1], b[0]}
+				}
+				if desc {
+					a, b = b, a
+				}
+				return a[0] < b[0] || (a[0] == b[0] && a[1] < b[1])
+			})
+		}
 	}
 	return n, es, strings.Join(labels, "+")
 }
